@@ -715,7 +715,7 @@ class FormalContext:
 
     def to_bin_attr_extents(self) -> Iterator[Tuple[str, fbarray]]:
         for i, m in enumerate(self.attribute_names):
-            extent = fbarray(self.data[:, i])
+            extent = fbarray([bool(v) for v in self.data[:, i]])
             yield m, extent
 
     @property
